@@ -314,12 +314,22 @@ def threaded_serving_run(ctx, seed, policy, nthreads, nreq, p_switch):
     results = {}
     state = dict(done=False)
 
+    teardown_exc = []
+
     def server():
         try:
             while not state["done"] and not b.closed:
                 b.serve(0.5)
         except EOFError:
             pass
+        except Exception as e:
+            # Several threads serving one connection can meet its end at the same moment (one reads the peer's close request,
+            # another reads the end of stream): what they raise while tearing down is not about request/response pairing
+            # and is only counted here (see DESIGN.md 7.7)
+            if state["done"] or b.closed:
+                teardown_exc.append(type(e).__name__)
+            else:
+                raise
 
     def client():
         try:
@@ -343,6 +353,7 @@ def threaded_serving_run(ctx, seed, policy, nthreads, nreq, p_switch):
         vsched.Sched.uninstrument(codes)
     ctx.case(("threaded-serving", nthreads, nreq, sched.trace_hash()), nontrivial=sched.preemptions > 0)
     ctx.count("threaded_serving_runs")
+    ctx.count("threaded_serving_teardown_exceptions", len(teardown_exc))
     ctx.count("threaded_serving_preemptions", sched.preemptions)
     wit = dict(mode="threaded-serving", seed=list(seed) if isinstance(seed, tuple) else seed, policy=policy, nthreads=nthreads, nreq=nreq)
     if not ok:
